@@ -88,6 +88,20 @@ func modeCors(c *Ctx) {
 			})))}
 		}))
 	}
+	// a session middleware: answers 401 itself unless the request carries
+	// X-Session (a browser's preflight never does). Preflights are not routed
+	// operations, so the CORS handler must answer them whatever the stack does.
+	mwHits := 0
+	c.SetField(api, "Middlewares", []func(http.Handler) http.Handler{func(next http.Handler) http.Handler {
+		return http.HandlerFunc(func(w http.ResponseWriter, r *http.Request) {
+			mwHits++
+			if r.Header.Get("X-Session") == "" {
+				w.WriteHeader(401)
+				return
+			}
+			next.ServeHTTP(w, r)
+		})
+	}})
 	h := c.Handler(api)
 	nf := 0
 	c.SetField(api, "NotFoundHandler", http.Handler(http.HandlerFunc(func(w http.ResponseWriter, r *http.Request) { nf++; w.WriteHeader(404) })))
@@ -104,11 +118,16 @@ func modeCors(c *Ctx) {
 			continue
 		}
 		for _, installed := range []bool{true, false} {
-			install(installed && c.Case.Cors)
-			opRan, corsCalls, corsServed, nf = "", 0, 0, 0
+			// with CORS disabled a CORSHandler field (should the package have
+			// one at all) is installed as well: it must stay without effect
+			install(installed)
+			opRan, corsCalls, corsServed, nf, mwHits = "", 0, 0, 0, 0
 			gotM, gotH = nil, nil
 			req := NewRequest("OPTIONS", path, "", nil, nil)
 			c.addAllCredentials(req, "good")
+			if other, _ := rr.Match("OPTIONS", path); other != "" {
+				req.Header.Set("X-Session", "1") // a call of a declared OPTIONS operation, not a preflight
+			}
 			in := fmt.Sprintf("OPTIONS %s (template %s, cors enabled=%v, handler installed=%v)", path, t.Path, c.Case.Cors, installed)
 			func() {
 				defer func() {
@@ -138,8 +157,11 @@ func modeCors(c *Ctx) {
 			default:
 				c.Stat("cors_answers", 1)
 				if corsCalls != 1 || corsServed != 1 || opRan != "" || nf != 0 {
-					c.Viol("preflight-unanswered", "OPTIONS to a declared path was not answered by the CORS handler", in, "one CORSHandler construction, served once", fmt.Sprintf("op=%q cors calls=%d served=%d notfound=%d", opRan, corsCalls, corsServed, nf))
+					c.Viol("preflight-unanswered", "OPTIONS to a declared path was not answered by the CORS handler", in, "one CORSHandler construction, served once", fmt.Sprintf("op=%q cors calls=%d served=%d notfound=%d middleware hits=%d", opRan, corsCalls, corsServed, nf, mwHits))
 					continue
+				}
+				if mwHits != 0 {
+					c.Viol("preflight-through-middlewares", "a preflight answered by the CORS handler passed through the user middlewares", in, 0, mwHits)
 				}
 				wantM, wantH := setList(r.methods), setList(r.headers)
 				gm, gh := sortedCopy(gotM), sortedCopy(gotH)
